@@ -817,17 +817,27 @@ Proof. reflexivity. Qed.
 Lemma swapcase_gas p : (swapcase p =? 3)%nat = (p =? 3)%nat.
 Proof. destruct p as [|[|[|[|[|[|p]]]]]]; reflexivity. Qed.
 
+Lemma xsum_linS c Tref m T P : xsum (lin_S c Tref) m T P == lin_Cn c m * (T - Tref) / 256 + lin_S0 c m.
+Proof.
+  induction m as [|pv m IH]; [simpl; field|].
+  rewrite xsum_cons. unfold lin_Cn, lin_S0. cbn [fold_right]. fold (lin_Cn c m). fold (lin_S0 c m).
+  rewrite IH. unfold lin_S. field.
+Qed.
+
 Lemma lin_contracts c hf Tref : contracts (lin_oracles c hf Tref).
 Proof.
   constructor; cbn [Hmix Smix solveH solveS lin_oracles].
   - intros p v k T P Hk. unfold lin_H.
     rewrite <- (vdot_vdivs (cn_of c p) v k Hk), <- (vdot_vdivs (lat_of c p) v k Hk). lra.
-  - intros p v k T P Hk. lra.
+  - intros p v k T P Hk. unfold lin_S.
+    rewrite <- (vdot_vdivs (cn_of c p) v k Hk), <- (vdot_vdivs (s0_of c p) v k Hk). field.
   - intros p n T P. unfold lin_H. rewrite !vdot_vzero. lra.
   - intros p v T P. unfold lin_H, cn_of, lat_of. rewrite swapcase_gas. reflexivity.
   - intros m x Tg P T' S. apply lin_solve_value in S. destruct S as [Z ET].
     rewrite xsum_lin, ET. field. exact Z.
-  - intros m x Tg P T' S. discriminate.
+  - intros m x Tg P T' S. unfold lin_solveS in S.
+    destruct (qzerob (lin_Cn c m)) eqn:Z; [discriminate|]. injection S as <-. apply qzerob_false in Z.
+    rewrite xsum_linS. field. exact Z.
 Qed.
 
 Lemma lin_solve_fix c Tref :
@@ -919,3 +929,208 @@ Lemma mix_energy_stub_lemma c hf Tref st r others Q0 st' ins s' :
   ~ total s' == 0 ->
   getH (lin_oracles c hf Tref) s' == qsum (map (getH (lin_oracles c hf Tref)) ins) + (Q0 + heats others).
 Proof. intros W. apply mix_energy_lemma; auto. apply lin_contracts. Qed.
+
+(* ------------------------------------------------------------------ the property memo is transparent, for every history *)
+Definition memo_wf (O : oracles) (c : cell) : Prop :=
+  match cm c with
+  | Some (k, vals) => Forall (fun nv => snd nv = calc O (fst nv) k) vals
+  | None => True
+  end.
+
+Lemma leib_q_eq a b : leib_q a b = true -> a = b.
+Proof.
+  unfold leib_q. intros H. apply andb_true_iff in H. destruct H as [H1 H2].
+  apply Z.eqb_eq in H1. apply Pos.eqb_eq in H2. destruct a, b; simpl in *; congruence.
+Qed.
+Lemma list_eqb_eq {A} (eqb : A -> A -> bool) :
+  (forall x y, eqb x y = true -> x = y) -> forall a b, list_eqb eqb a b = true -> a = b.
+Proof.
+  intros E. induction a as [|x a IH]; intros [|y b] H; simpl in H; try discriminate; auto.
+  apply andb_true_iff in H. destruct H as [H1 H2]. rewrite (E _ _ H1), (IH _ H2). reflexivity.
+Qed.
+Lemma leib_pv_eq a b : leib_pv a b = true -> a = b.
+Proof.
+  unfold leib_pv. intros H. apply andb_true_iff in H. destruct H as [H1 H2].
+  apply Nat.eqb_eq in H1. apply (list_eqb_eq leib_q leib_q_eq) in H2. destruct a, b; simpl in *; congruence.
+Qed.
+Lemma pkey_eqb_eq a b : pkey_eqb a b = true -> a = b.
+Proof.
+  unfold pkey_eqb. intros H. apply andb_true_iff in H. destruct H as [H H3].
+  apply andb_true_iff in H. destruct H as [H1 H2].
+  apply (list_eqb_eq leib_pv leib_pv_eq) in H1. apply leib_q_eq in H2. apply leib_q_eq in H3.
+  destruct a, b; simpl in *; congruence.
+Qed.
+Lemma lookup_In name vals v : lookup name vals = Some v -> In (name, v) vals.
+Proof.
+  induction vals as [|nv t IH]; simpl; [discriminate|].
+  destruct (fst nv =? name)%nat eqn:E.
+  - intros H; injection H as <-. apply Nat.eqb_eq in E. left. destruct nv; simpl in *; congruence.
+  - intros H. right. now apply IH.
+Qed.
+
+(* one read: the value is the property of the current state, the stream is untouched, the memo stays sound *)
+Lemma get_prop_spec O name flow c :
+  memo_wf O c ->
+  fst (get_prop O name flow c) = tval O name flow (cs c) /\
+  cs (snd (get_prop O name flow c)) = cs c /\ memo_wf O (snd (get_prop O name flow c)).
+Proof.
+  intros W. unfold get_prop, tval, prop_flow, prop_spec.
+  destruct (qzerob (total (cs c))) eqn:Z.
+  - cbn [fst snd]. destruct flow; auto.
+  - assert (F : calc O name (key_of (cs c)) =
+                xsum (pname O name) (pm_div (pm (cs c)) (total (cs c))) (sT (cs c)) (sP (cs c))) by reflexivity.
+    assert (Wnew : memo_wf O (mkCell (cs c) (Some (key_of (cs c), [(name, calc O name (key_of (cs c)))])))).
+    { unfold memo_wf. cbn [cm]. constructor; [reflexivity|constructor]. }
+    destruct (cm c) as [[k0 vals]|] eqn:M.
+    + destruct (pkey_eqb (key_of (cs c)) k0) eqn:K.
+      * apply pkey_eqb_eq in K. subst k0.
+        destruct (lookup name vals) as [v|] eqn:L.
+        -- cbn [fst snd]. apply lookup_In in L. pose proof W as W0. unfold memo_wf in W. rewrite M in W.
+           rewrite Forall_forall in W. specialize (W _ L). cbn [fst snd] in W. subst v.
+           rewrite F. unfold out_val. destruct flow; auto.
+        -- cbn [fst snd cs]. rewrite F. unfold out_val. split; [destruct flow; auto|]. split; [reflexivity|].
+           unfold memo_wf in *. cbn [cm]. rewrite M in W. constructor; [reflexivity|exact W].
+      * cbn [fst snd cs]. rewrite F. unfold out_val. split; [destruct flow; auto|]. split; [reflexivity|exact Wnew].
+    + cbn [fst snd cs]. rewrite F. unfold out_val. split; [destruct flow; auto|]. split; [reflexivity|exact Wnew].
+Qed.
+
+Lemma memo_wf_with_s O c s : memo_wf O c -> memo_wf O (with_s c s).
+Proof. unfold memo_wf, with_s. auto. Qed.
+
+Lemma Forall_upd {A} (P : A -> Prop) l i x : Forall P l -> P x -> Forall P (upd l i x).
+Proof.
+  revert i. induction l as [|a l IH]; intros i F Px; simpl; [constructor|].
+  inversion F; subst. destruct i; constructor; auto.
+Qed.
+Lemma Forall_nth_error {A} (P : A -> Prop) l i x : Forall P l -> nth_error l i = Some x -> P x.
+Proof. intros F N. rewrite Forall_forall in F. apply F. eapply nth_error_In; eauto. Qed.
+
+Lemma map_cs_upd cells i c : map cs (upd cells i c) = upd (map cs cells) i (cs c).
+Proof. revert i. induction cells as [|a l IH]; intros [|i]; simpl; auto. now rewrite IH. Qed.
+Lemma upd_same_nth {A} (l : list A) i x : nth_error l i = Some x -> upd l i x = l.
+Proof.
+  revert i. induction l as [|a l IH]; intros [|i] H; simpl in *; try discriminate; auto.
+  - now injection H as ->.
+  - now rewrite IH.
+Qed.
+Lemma nth_error_map_cs cells i : nth_error (map cs cells) i = option_map cs (nth_error cells i).
+Proof. apply nth_error_map. Qed.
+
+Lemma set_streams_wf O cells st : Forall (memo_wf O) cells -> Forall (memo_wf O) (set_streams cells st).
+Proof.
+  unfold set_streams. revert st. induction cells as [|c l IH]; intros [|s st] F; simpl; try constructor.
+  - inversion F; subst. now apply memo_wf_with_s.
+  - inversion F; subst. now apply IH.
+Qed.
+Lemma set_streams_cs cells st : length cells = length st -> map cs (set_streams cells st) = st.
+Proof.
+  unfold set_streams. revert st. induction cells as [|c l IH]; intros [|s st] L; simpl in *; try discriminate; auto.
+  rewrite IH by lia. reflexivity.
+Qed.
+
+Lemma read_at_props O cells i :
+  Forall (memo_wf O) cells ->
+  Forall (memo_wf O) (read_at (get_prop O) cells i) /\ length (read_at (get_prop O) cells i) = length cells.
+Proof.
+  intros F. unfold read_at. destruct (nth_error cells i) as [c|] eqn:N; [|auto].
+  rewrite upd_length. split; [|reflexivity]. apply Forall_upd; auto.
+  apply (get_prop_spec O 0%nat true c). eapply Forall_nth_error; eauto.
+Qed.
+
+Lemma mix_reads_props O cells r others Q0 :
+  Forall (memo_wf O) cells ->
+  Forall (memo_wf O) (mix_reads O (get_prop O) cells r others Q0) /\
+  length (mix_reads O (get_prop O) cells r others Q0) = length cells.
+Proof.
+  intros F. unfold mix_reads.
+  destruct (streams_of (map cs cells) others) as [|i [|j l]]; [auto| |].
+  - destruct (qzerob (heat_of others Q0)); [auto|].
+    destruct (nth_error cells r) as [cr|] eqn:Nr; [|auto].
+    destruct (nth_error (map cs cells) i) as [o|]; [|auto].
+    destruct (copy_like (cs cr) o (r =? i)%nat) as [s1|]; [|auto].
+    rewrite upd_length. split; [|reflexivity]. apply Forall_upd; auto.
+    apply (get_prop_spec O 0%nat true (mkCell s1 (cm cr))).
+    pose proof (Forall_nth_error _ _ _ _ F Nr) as W. exact W.
+  - generalize (i :: j :: l). intros idxs. revert cells F.
+    induction idxs as [|k t IH]; intros cells F; simpl; [auto|].
+    destruct (read_at_props O cells k F) as [F1 L1].
+    destruct (IH _ F1) as [F2 L2]. split; [exact F2|congruence].
+Qed.
+
+Lemma cur_value_spec O which c :
+  memo_wf O c ->
+  fst (cur_value O (get_prop O) which c) = tcur O which (cs c) /\
+  cs (snd (cur_value O (get_prop O) which c)) = cs c /\ memo_wf O (snd (cur_value O (get_prop O) which c)).
+Proof.
+  intros W. unfold tcur, cur_value, get_plain.
+  destruct which as [|[|[|w]]]; cbn [fst snd cs];
+    [destruct (get_prop_spec O 0%nat true c W) as (V & S & M)
+    |destruct (get_prop_spec O 1%nat true c W) as (V & S & M)
+    |destruct (get_prop_spec O 0%nat false c W) as (V & S & M)
+    |destruct (get_prop_spec O 0%nat true c W) as (V & S & M)];
+    rewrite V; unfold tval; auto.
+Qed.
+
+Lemma hstep_sim O cells hs op o cells' hs' :
+  Forall (memo_wf O) cells ->
+  hstep O (get_prop O) (cells, hs) op = (o, (cells', hs')) ->
+  Forall (memo_wf O) cells' /\ tstep O (map cs cells, hs) op = (o, (map cs cells', hs')).
+Proof.
+  intros F H. unfold hstep in H. unfold tstep.
+  assert (AT : forall h, match idx_of hs h with Some i => nth_error (map cs cells) i = option_map cs (nth_error cells i) | None => True end)
+    by (intros h; destruct (idx_of hs h); auto; apply nth_error_map).
+  destruct op as [h|h name flow|h T|h P|h p|h which x|h which|h others Q0|h oh];
+    (destruct (idx_of hs h) as [i|] eqn:I; [|injection H as <- <- <-; auto]);
+    rewrite nth_error_map_cs; (destruct (nth_error cells i) as [c|] eqn:N; cbn [option_map]; [|injection H as <- <- <-; auto]).
+  - injection H as <- <- <-. auto.
+  - destruct (get_prop_spec O name flow c (Forall_nth_error _ _ _ _ F N)) as (V & S & M).
+    injection H as <- <- <-. split; [now apply Forall_upd|].
+    rewrite V, map_cs_upd, S, upd_same_nth; [reflexivity|].
+    rewrite nth_error_map_cs, N. reflexivity.
+  - injection H as <- <- <-. split; [apply Forall_upd; auto; apply memo_wf_with_s; eapply Forall_nth_error; eauto|].
+    now rewrite map_cs_upd.
+  - injection H as <- <- <-. split; [apply Forall_upd; auto; apply memo_wf_with_s; eapply Forall_nth_error; eauto|].
+    now rewrite map_cs_upd.
+  - injection H as <- <- <-. split; [apply Forall_upd; auto; apply memo_wf_with_s; eapply Forall_nth_error; eauto|].
+    now rewrite map_cs_upd.
+  - injection H as <- <- <-. split; [apply Forall_upd; auto; apply memo_wf_with_s; eapply Forall_nth_error; eauto|].
+    now rewrite map_cs_upd.
+  - destruct (cur_value_spec O which c (Forall_nth_error _ _ _ _ F N)) as (V & S & M).
+    injection H as <- <- <-. split; [apply Forall_upd; auto; now apply memo_wf_with_s|].
+    rewrite map_cs_upd. cbn [with_s cs]. rewrite S, V. reflexivity.
+  - destruct (mix_from O (map cs cells) i (tr_inlets hs others) Q0) as [st'|e] eqn:MX.
+    + injection H as <- <- <-.
+      destruct (mix_reads_props O cells i (tr_inlets hs others) Q0 F) as [F1 L1].
+      split; [now apply set_streams_wf|].
+      rewrite set_streams_cs; [reflexivity|].
+      destruct (mix_frame_lemma _ _ _ _ _ _ MX) as [L _]. rewrite L1, L, map_length. reflexivity.
+    + injection H as <- <- <-. auto.
+  - destruct (idx_of hs oh) as [j|] eqn:J; [|injection H as <- <- <-; auto].
+    destruct (separate_out O (map cs cells) i j) as [st'|e] eqn:SP.
+    + injection H as <- <- <-.
+      destruct (sep_frame_lemma _ _ _ _ _ SP) as [L _]. rewrite map_length in L.
+      destruct (i =? j)%nat.
+      * split; [now apply set_streams_wf|]. rewrite set_streams_cs; [reflexivity|lia].
+      * destruct (read_at_props O cells i F) as [F1 L1]. destruct (read_at_props O _ j F1) as [F2 L2].
+        split; [now apply set_streams_wf|]. rewrite set_streams_cs; [reflexivity|lia].
+    + injection H as <- <- <-. auto.
+Qed.
+
+Lemma hrun_sim O ops cells hs :
+  Forall (memo_wf O) cells ->
+  Forall (memo_wf O) (fst (snd (hrun O (get_prop O) (cells, hs) ops))) /\
+  trun O (map cs cells, hs) ops =
+    (fst (hrun O (get_prop O) (cells, hs) ops),
+     (map cs (fst (snd (hrun O (get_prop O) (cells, hs) ops))), snd (snd (hrun O (get_prop O) (cells, hs) ops)))).
+Proof.
+  revert cells hs. induction ops as [|op t IH]; intros cells hs F; [simpl; auto|].
+  cbn [hrun trun].
+  destruct (hstep O (get_prop O) (cells, hs) op) as [o [cells' hs']] eqn:HS.
+  destruct (hstep_sim O cells hs op o cells' hs' F HS) as [F' TS]. rewrite TS. cbn [fst snd].
+  destruct o; cbn [fst snd]; try (destruct (IH cells' hs' F') as [F2 E2]; rewrite E2; cbn [fst snd]; auto).
+  auto.
+Qed.
+
+(* the work-space is released whatever the solve does *)
+Lemma workspace_released_lemma {A} loaded (body : workspace -> res A) : snd (with_workspace loaded body) = [].
+Proof. reflexivity. Qed.
